@@ -655,3 +655,70 @@ def r01r(ctx, rep, rule="R01r"):
     else:
         rep.fail(rule, key, "force calls promise-update! without re-checking promise-done? after running the thunk: when the thunk "
                  "forced the same promise, the outer evaluation overwrites the value the inner one delivered", [path])
+
+
+def calls_with_tail(core, name, tail=True, out=None):
+    """[(is_tail)] for every application of `name` in a core form"""
+    out = out if out is not None else []
+    if isinstance(core, tuple) or not isinstance(core, list) or not core:
+        return out
+    head = core[0]
+    if head == "quote":
+        return out
+    if head == "if":
+        if len(core) > 1:
+            calls_with_tail(core[1], name, False, out)
+        for br in core[2:4]:
+            calls_with_tail(br, name, tail, out)
+        return out
+    if head in ("lambda", "λ"):
+        body = core[2:]
+        for i, e in enumerate(body):
+            calls_with_tail(e, name, i == len(body) - 1, out)
+        return out
+    if head in ("set!", "define"):
+        for e in core[2:]:
+            calls_with_tail(e, name, False, out)
+        return out
+    if isinstance(head, list) and head and head[0] in ("lambda", "λ"):
+        body = head[2:]
+        for i, e in enumerate(body):
+            calls_with_tail(e, name, tail and i == len(body) - 1, out)
+        for a in core[1:]:
+            calls_with_tail(a, name, False, out)
+        return out
+    if isinstance(head, Sym) and str(head) == name:
+        out.append(tail)
+    for e in (core[1:] if isinstance(head, Sym) else core):
+        calls_with_tail(e, name, False, out)
+    return out
+
+
+def r12n(ctx, rep, rule="R12n"):
+    rep.rule(rule, "force is iterative (R7RS 4.2.5: delay-force chains run in constant space): in the core expansion of the "
+             "prelude's force, every call of force itself is a tail call. A non-tail self-call — forcing the promise the thunk "
+             "returned before copying it — makes a chain of n delay-force steps recurse n deep, with every intermediate promise "
+             "and environment rooted from the live frames.")
+    try:
+        macros, forms, path = load_macros(ctx["root"])
+    except (OSError, IndexError) as e:
+        rep.anchor_lost(rule, "marwood/prelude.scm unreadable: %s" % e)
+        return
+    d = None
+    for fm in forms:
+        if isinstance(fm, list) and len(fm) >= 3 and fm[0] == "define" and isinstance(fm[1], list) and fm[1] and fm[1][0] == "force":
+            d = fm
+    if d is None:
+        rep.anchor_lost(rule, "definition of force in prelude.scm")
+        return
+    core = expand([Sym("lambda"), d[1][1:]] + d[2:], macros)
+    calls = calls_with_tail(core, "force")
+    key = rule + "|force|self-calls-are-tail-calls"
+    if not calls:
+        rep.anchor_lost(rule, "self-call of force")
+    elif all(calls):
+        rep.ok(rule, key, "force calls itself only in tail position (%d call%s)" % (len(calls), "" if len(calls) == 1 else "s"), [path])
+    else:
+        rep.fail(rule, key, "force calls itself in a non-tail position (%d of %d calls): a delay-force chain is consumed recursively, "
+                 "and stack and heap grow with the length of the chain although one promise is live" % (
+                     len([c for c in calls if not c]), len(calls)), [path])
